@@ -10,6 +10,13 @@ func propertyTable() map[string]PropertyCfg {
 			},
 			NotDecided: []string{"the shift-then-unshift law is proved as a lemma over the contract of Add (harness addThenSub) when present; see samples"},
 		},
+		"C10": {ID: "C10",
+			Assumptions: []string{
+				"precondition: cue pointers non-nil and distinct, 0 <= start <= end <= 2^61 per cue, list ordered by start, 0 < f <= 2^61 (the property's quantifier)",
+				"three arithmetic lemmas over the symbolic period f (nonlinear integer arithmetic) are discharged separately from the entry facts and used through explicit instances",
+				"relies on the contract of Order (C12) and on the trusted definition of the abstract cue text (Item.String)",
+			},
+		},
 		"C11": {ID: "C11",
 			Assumptions: []string{
 				"precondition: cue pointers non-nil and pairwise distinct",
